@@ -30,3 +30,44 @@ Theorem C02_log_key_injective : forall n1 i1 n2 i2, i1 < two64 -> i2 < two64 ->
   log_key_of n1 i1 = log_key_of n2 i2 -> n1 = n2 /\ i1 = i2.
 Proof. exact log_key_of_inj. Qed.
 Print Assumptions C02_log_key_injective.
+
+(* ---- the table level: the whole of C02 ---- *)
+From RT Require Import Model.Writer Model.Reader Proofs.TableProofs Proofs.SeekProofs.
+
+(* For every table the writer produces -- no index, one or several index
+   levels, a multi-block top level, any block size / padding / restart
+   interval -- and for EVERY ref name k (present, absent, a prefix of a name,
+   the empty name, beyond the last): SeekRef(k) followed by iteration yields
+   exactly the records of a full scan whose name is >= k; it never fails. *)
+Theorem C02_seek_ref : forall deflate inflate,
+  zlib_ok deflate inflate ->
+  (forall x n, (n < length (deflate x))%nat -> inflate (firstn n (deflate x)) = ITrunc) ->
+  (forall x, N.of_nat (length x) < 16777216 -> N.of_nat (length (deflate x)) < 1073741824) ->
+  forall cfg min max refs logs data,
+  cfg_ok cfg -> max < two64 -> min <= max -> refs_ok cfg min max refs -> logs_ok cfg logs ->
+  N.of_nat (length data) < two64 ->
+  write_table deflate cfg min max refs logs = Ok (false, data) ->
+  exists r, rd_open data = Ok r /\
+    forall k, seek_ref inflate r k = Ok (map RecRef (seek_refs k refs)).
+Proof. exact table_seek_ref. Qed.
+Print Assumptions C02_seek_ref.
+
+(* SeekLog(name, u): exactly the scan suffix from the first entry whose key is
+   >= (name, u) -- entries of one ref come newest first, so that is the newest
+   entry of that ref with update index <= u -- for every name and every u *)
+Theorem C02_seek_log : forall deflate inflate,
+  zlib_ok deflate inflate ->
+  (forall x n, (n < length (deflate x))%nat -> inflate (firstn n (deflate x)) = ITrunc) ->
+  (forall x, N.of_nat (length x) < 16777216 -> N.of_nat (length (deflate x)) < 1073741824) ->
+  forall cfg min max refs logs data logs',
+  cfg_ok cfg -> max < two64 -> min <= max -> refs_ok cfg min max refs -> logs_ok cfg logs ->
+  N.of_nat (length data) < two64 ->
+  write_table deflate cfg min max refs logs = Ok (false, data) ->
+  read_logs cfg logs = Some logs' ->
+  exists r, rd_open data = Ok r /\
+    forall name idx,
+      seek_log inflate r name idx = Ok (map RecLog (seek_logs (log_key_of name idx) logs')).
+Proof. exact table_seek_log. Qed.
+Print Assumptions C02_seek_log.
+
+Definition C02_nonvacuous := (table_seek_ref_stored, table_seek_log_stored).
